@@ -537,7 +537,76 @@ def rule_j(ctx, out):
         raise AnalysisError(f"only {n_calls} precisely resolved calls")
 
 
+def rule_k(ctx, out):
+    """The sub-blocks smt_translate_block reports are the ones it wrote specifications for.  The function hands a list to generate_subblocks
+    (or one block to translate_block), which stores one specification per element under `<block>_<index>`; afterwards it returns the
+    instructions of `subblocks`, and callers replace sub-block k by what was synthesised for key k.  On every path, the list that reaches
+    the reporting loop must be the very list (or `[block]`) that was handed to the translation: a refined list that is translated while
+    the coarse one is reported makes key k describe other instructions than reported sub-block k."""
+    from ..core.flow import reaching_defs, node_binds
+    f = ctx.func(f"{GO}.smt_translate_block")
+    cfg = ctx.cfg(f)
+    rets = [n for n in own_nodes(f.node) if isinstance(n, ast.Return) and isinstance(n.value, ast.Name)]
+    if not rets:
+        raise AnalysisError("smt_translate_block: no `return <name>` found")
+    rname = rets[-1].value.id
+    loops = [l for l in own_nodes(f.node) if isinstance(l, ast.For) and isinstance(l.iter, ast.Name)
+             and any(isinstance(c.func, ast.Attribute) and c.func.attr == "append" and is_name(c.func.value, rname) for st in l.body for c in calls_in(st))]
+    if len(loops) != 1:
+        raise AnalysisError(f"smt_translate_block: the loop that builds the reported list `{rname}` was not found")
+    X = loops[0].iter.id
+    head = next((n for n in cfg.nodes if n.kind == "iter" and n.owner is loops[0]), None)
+    if head is None:
+        raise AnalysisError("smt_translate_block: flow-graph node of the reporting loop not found")
+    binders = lambda v: [n for n in cfg.nodes if v in node_binds(n)]
+    bx = binders(X)
+    sites = [(c, "list", 1) for c in calls_in(f.node, "generate_subblocks")] + [(c, "block", 2) for c in calls_in(f.node, "translate_block")]
+    n = 0
+    for c, kind, pos in sites:
+        if len(c.args) <= pos or not isinstance(c.args[pos], ast.Name):
+            out.bad(f"smt_translate_block:translated-argument-not-a-name:{call_name(c)}", f"`{short(c, 60)}`: the translated {kind} is not a plain name", where(f, c))
+            continue
+        A = c.args[pos].id
+        cn = cfg.node_containing(c)
+        if not cfg.reaches(cn, head):
+            continue
+        n += 1
+        last = []       # bindings of X that can be the last one before the reporting loop on a path through this call
+        if cfg.paths_avoiding(cn, head, {b.id for b in bx}):
+            last += [(d, "before") for d in reaching_defs(cfg, X, cn)]
+        for b in bx:
+            if b is not cn and cfg.reaches(cn, b) and (b is head or cfg.paths_avoiding(b, head, {o.id for o in bx if o is not b})):
+                last.append((b, "after"))
+        ba = binders(A)
+        bad = None
+        for d, when in last:
+            val = d.ast.value if d.kind == "stmt" and isinstance(d.ast, ast.Assign) and len(d.ast.targets) == 1 and is_name(d.ast.targets[0], X) else None
+            if kind == "list" and A == X and when == "before":
+                continue                                    # the reported name itself was handed over and not re-bound since
+            want = (isinstance(val, ast.Name) and val.id == A) if kind == "list" else \
+                (isinstance(val, ast.List) and len(val.elts) == 1 and is_name(val.elts[0], A))
+            if not want:
+                bad = (d, f"`{X}` is bound by `{short(d.ast, 50) if d.ast is not None else 'the parameter'}`")
+                break
+            # the translated name must not be re-bound between the call and that binding (either order)
+            a, b = (d, cn) if when == "before" else (cn, d)
+            if any(o is not a and o is not b and cfg.reaches(a, o) and cfg.reaches(o, b) for o in ba if A != X):
+                bad = (d, f"`{A}` is re-bound between `{short(c, 40)}` and `{short(d.ast, 40)}`")
+                break
+        if bad is None and last:
+            out.ok({"translated": f"{call_name(c)}(… {A} …)", "reported": X, "line": c.lineno})
+        else:
+            why = bad[1] if bad else f"no binding of `{X}` reaches the reporting loop"
+            out.bad(f"smt_translate_block:reported-list-is-not-the-translated-one:{call_name(c)}:{A}", f"smt_translate_block writes the specifications of "
+                    f"`{A}` (`{short(c, 60)}`) but reports `{X}`, and on a path through that call {why}: specification key k and reported sub-block k "
+                    f"describe different instructions", where(f, c))
+    # (a tidy function needs three sites: one block unsplit, split by number, split at split instructions)
+    if n < 2 or not calls_in(f.node, "generate_subblocks"):
+        raise AnalysisError(f"smt_translate_block: only {n} translation sites found")
+
+
 RULES = [
+    ("C14.k", "the reported sub-blocks are the ones the specifications were written for", 2, rule_k),
     ("C14.j", "call sites and signatures agree on the order of arguments", 1, rule_j),
     ("C14.i", "functions handed the sub-block list leave it intact (by evaluation)", 5, rule_i),
     ("C14.g", "splitting at split instructions: pieces, shared lines and re-assembly (by evaluation)", 600, rule_g),
